@@ -110,4 +110,8 @@ def check(ctx, run):
     boundaries.check(ctx, run, 'R10.6', [p_ for p_ in sorted(boundaries.load_baseline() or {}) if _bf(p_)], 'the decoder rejects input')
     from rules import layout as _layout
     _layout.r01_2(ctx, run, rule='R10.8/R01.2')
+    from rules import units as _units
+    _units.check(ctx, run, 'R10.9/R05.15', only=lambda p_: p_.startswith('de::'))
+    from rules import dispatch as _dispatch
+    _dispatch.sniff_table(ctx, run, 'R10.10')
     return report.finish(run, level='other', explanation=EXPLANATION, assumptions=ASSUME)
